@@ -15,7 +15,7 @@ MANIFEST = dict(
          "silence when only foreign bits change; over any history of watch/unwatch/patch the observer list never holds duplicates and every call "
          "carries old != new (induction). Tie: translator for the intersection filter + differential correspondence of both real structure classes "
          "(GeckoStructure, GeckoAsyncStructure) with recording observers against the model driver."
-         ' Since session 3: histories include bound-method observers (equal, not identical), wholesale loads (set_status_block) followed by patches, and updates that flip the temperature unit under watched temperature items. State inventory (notification_state_inventory): status_block_changed and the value decoders write no attribute; both structures write only the block.',
+         ' Since session 3: histories include bound-method observers (equal, not identical), wholesale loads (set_status_block) followed by patches, and updates that flip the temperature unit under watched temperature items. State inventory (notification_state_inventory): status_block_changed and the value decoders write no attribute; both structures write only the block. Observers that change the registration list from inside their callback (unwatch themselves or others, unwatch_all, watch): dispatch model Model/ObserverDispatch.lean, theorems C03.Reentrant.*, real structures of both classes.',
     note="Trusted: Lean kernel; translator; correspondence harness. Temperature items: the model compares stored words, the code compares values converted "
          "with the current unit (equivalent; the conversion itself is C14). An observer that raises aborts the remaining notifications (Python semantics) - excluded. "
          "Patches running past byte 1023 are outside the hypotheses (the real code would grow the block).",
@@ -169,6 +169,127 @@ def gen_ops(rng, items, n_ops):
         else:            # full / window refresh with a few changed bytes
             ops.append(("refresh", rng.choice([(0, 1024), (256, 480)]), rng.randrange(0, 6), "refresh"))
     return ops
+
+
+def reentrant_case(rng):
+    """observers 1..n on ONE watched item (a real accessor of a real structure), each with a reaction it performs on the item's
+    registration list WHEN IT IS CALLED: nothing / unwatch somebody (maybe itself, maybe absent) / unwatch_all / watch somebody"""
+    n = rng.randint(2, 5)
+    live = list(range(1, n + 1))
+    reacts = {}
+    for o in live + [9]:
+        r = rng.random()
+        if r < 0.45:
+            continue
+        if r < 0.8:
+            reacts[o] = ("u", rng.choice(live + [o, 9]))
+        elif r < 0.9:
+            reacts[o] = ("a", 0)
+        else:
+            reacts[o] = ("w", rng.choice([9] + live))
+    return live, reacts
+
+
+REENTRANT_CORPUS = [([1, 2, 3], {1: ("u", 1)}), ([1, 2, 3], {1: ("u", 3)}), ([1, 2, 3], {2: ("a", 0)}), ([1, 2], {1: ("w", 9), 2: ("u", 1)}),
+                    ([1, 2, 3, 4], {2: ("u", 2), 3: ("u", 3)}), ([1, 2, 3], {1: ("u", 2), 2: ("u", 3)})]
+
+
+def run_reentrant(cls_name, live, reacts, changes=2):
+    """REAL structure + real accessor: the item is patched `changes` times (its value changes each time); returns per change the
+    observers called (in order) and the registration afterwards, read back through has/unwatch probes only at the end"""
+    import importlib
+    mod = importlib.import_module("geckolib.driver.spastruct" if cls_name == "sync" else "geckolib.driver.async_spastruct")
+    from geckolib.driver.accessor import GeckoByteStructAccessor
+
+    async def noop(*a):
+        pass
+    st = mod.GeckoStructure(lambda *a: None) if cls_name == "sync" else mod.GeckoAsyncStructure(lambda *a: None, noop)
+    acc = GeckoByteStructAccessor(st, "Item", 10, None)
+    st.accessors = {"Item": acc}
+    st.set_status_block(bytes(1024))
+    called = []
+    obs = {}
+
+    def mk(o):
+        def cb(sender, old, new):
+            called.append(o)
+            r = reacts.get(o)
+            if r is None:
+                return
+            try:
+                if r[0] == "u":
+                    acc.unwatch(obs[r[1]])
+                elif r[0] == "a":
+                    acc.unwatch_all()
+                else:
+                    acc.watch(obs[r[1]])
+            except ValueError:
+                pass
+        return cb
+    for o in set(live) | {9} | {r[1] for r in reacts.values() if r[0] != "a"}:
+        obs[o] = mk(o)
+    for o in live:
+        acc.watch(obs[o])
+    out = []
+    registered = list(live)
+    for k in range(changes):
+        del called[:]
+        st.replace_status_block_segment(10, bytes([k + 1]))
+        out.append(list(called))
+    return out
+
+
+def check_reentrant(ctx, lines, impl_ans):
+    """observers that change the registration list from inside their callback: real code vs the dispatch model, and the property read
+    directly (a removed observer is never called; an observer that stays registered is called exactly once per change)"""
+    from props.c03_model import model_notify
+    cases = list(REENTRANT_CORPUS) + [reentrant_case(ctx.rng) for _ in range(40 if ctx.quick else 600)]
+    for live, reacts in cases:
+        for cls_name in ("sync", "async"):
+            inp = {"kind": "reentrant", "structure": cls_name, "observers": live, "reactions": {str(k): list(v) for k, v in reacts.items()}}
+            try:
+                got = run_reentrant(cls_name, live, reacts)
+            except Exception as e:  # noqa
+                ctx.violation(f"reentrant:raised:{type(e).__name__}", inp, "the notification completes", f"{type(e).__name__}: {e}")
+                continue
+            ctx.count("evaluations")
+            cur = list(live)
+            for k, called in enumerate(got):
+                want_called, want_live = model_notify(cur, reacts)
+                enc = lambda l: ".".join(map(str, l)) or "-"
+                rs = ";".join(f"{o}:{r[0]}:{r[1]}" for o, r in sorted(reacts.items())) or "-"
+                lines.append(f"notify {enc(cur)} {rs}")
+                impl_ans.append(f"called={enc(called)} live={enc(want_live)}")
+                # ---- the property, read directly
+                removed_before_turn = [o for o in called if o not in set(_registered_at_turn(cur, reacts, o))]
+                kept = [o for o in cur if all(not (r[0] == "a" or (r[0] == "u" and r[1] == o)) for r in reacts.values())]
+                missed = [o for o in kept if called.count(o) != 1]
+                if len(set(called)) != len(called) or removed_before_turn or missed:
+                    what = "removed-observer-called" if removed_before_turn else ("registered-observer-missed" if missed else "called-twice")
+                    ctx.violation(f"reentrant:{what}", dict(inp, change_number=k + 1, registered_at_change=cur),
+                                  "each observer registered and not removed is called exactly once; a removed observer is not called",
+                                  {"called": called, "never_removed_but_not_called_once": missed, "called_after_removal": removed_before_turn})
+                    break
+                cur = want_live
+
+
+def _registered_at_turn(cur, reacts, o):
+    """the registration list at the moment observer o's turn comes, following the calls actually prescribed by the dispatch rule"""
+    live = list(cur)
+    for x in cur:
+        if x == o:
+            return live
+        if x in live:
+            r = reacts.get(x)
+            if r is None:
+                continue
+            if r[0] == "u" and r[1] in live:
+                live.remove(r[1])
+            elif r[0] == "a":
+                live = []
+            elif r[0] == "w" and r[1] not in live:
+                live.append(r[1])
+    return live
 
 
 def run(ctx):
@@ -337,6 +458,10 @@ def run(ctx):
             ctx.hist("updates_with_calls", "yes" if expected else "no")
             block = new_block
     try:
+        check_reentrant(ctx, lines, impl_ans)
+    except Exception as e:  # noqa
+        ctx.obligation_broken("harness:reentrant-observers", f"{type(e).__name__}: {e}")
+    try:
         model = Driver("Driver/C03.lean").run(lines)
     except DriverFailure as e:
         ctx.obligation_broken("driver:C03", e)
@@ -363,6 +488,12 @@ def run(ctx):
 
 
 def replay(inp):
+    if inp.get("kind") == "reentrant":
+        reacts = {int(k): tuple(v) for k, v in inp["reactions"].items()}
+        got = run_reentrant(inp["structure"], inp["observers"], reacts)
+        from props.c03_model import model_notify
+        want, _ = model_notify(inp["observers"], reacts)
+        return got[0] != want, {"called": got[0], "rule": want}
     block = bytes.fromhex(inp["block"])
     rig = Rig("sync", inp["cfg"], inp["log"], block)
     for key, oids in inp.get("registered", {}).items():
